@@ -40,6 +40,9 @@ def gen_case(rng, tier):
         c["offset"] = str(rng.dyadic())
         c["inplace"] = rng.random() < 0.5
         c["future"] = c["inplace"] and rng.random() < 0.6   # inplace=False on a pending set blocks (it copies)
+        # storage dtype of the sample array: unsigned / bool storage cannot hold -1 and must be widened
+        c["sdtype"] = rng.choice(['int8', 'uint8', 'uint16', 'uint32', 'bool', 'int32', 'float64', 'int64'] if c["vartype"] == 'BINARY'
+                                 else ['int8', 'int16', 'int32', 'float64', 'float32', 'int64'])
         return c
     if kind.startswith(('bqm', 'view', 'ising')):
         c["dtype"] = rng.choice(['f64', 'f64', 'f32', 'obj'])
@@ -226,9 +229,11 @@ def run_case(c):
                 "nontrivial": any(len(k) for k, _ in before)}
     if kind == 'sampleset':
         labels = [dec_label(l) for l in c["labels"]]
-        rows = np.array(c["rows"], dtype=np.int8).reshape(len(c["rows"]), len(labels))
+        rows = np.array(c["rows"], dtype=np.int64).reshape(len(c["rows"]), len(labels))     # exact integers, for the oracle
+        stored = rows.astype(np.dtype(c.get("sdtype", "int8")))
         en = [float(F(e)) for e in c["energy"]]
-        ss = dimod.SampleSet.from_samples((rows, labels), energy=en, vartype=c["vartype"], sort_labels=False)
+        ss = dimod.SampleSet.from_samples((stored, labels), energy=en, vartype=c["vartype"], sort_labels=False)
+        feats["sdtype"] = str(ss.record.sample.dtype)
         other = 'SPIN' if c["vartype"] == 'BINARY' else 'BINARY'
         off = float(F(c["offset"]))
         snap = ss.record.copy()
